@@ -147,7 +147,10 @@ def _build(fmt, rs, A, dt, rdt, kind):
         if w is not None:
             w = w.astype(rdt)
         wrapper = rs.rand() < 0.5
-        mask = (rs.uniform(size=shp) < 0.6).astype(rdt) if (order >= 2 and rs.rand() < 0.3) else None
+        mask = (rs.uniform(size=shp) < 0.6).astype(rdt) if rs.rand() < 0.3 else None     # any order, order 1 included
+        if mask is not None and rs.rand() < 0.4:
+            # observation weights rather than 0/1: "applied entrywise" is a plain product, whatever the values
+            mask = (mask * rs.uniform(-1, 2, size=shp)).astype(rdt)
         cls = ("order1" if order == 1 else "orderN") + ("+noweights" if w is None else "")
         desc = {"fmt": "cp", "shape": shp, "rank": R, "weights": wk, "wrapper": bool(wrapper), "mask": mask is not None, "cls": cls}
         dense, absb, nt = ref.cp_dense(w, factors)
